@@ -203,7 +203,7 @@ def capella_shaped(doc: dict) -> bool:
     tails, text only where it is not white space, no default namespace, no shadowed prefix, namespace URIs free of
     markup characters, comments without '>' / line breaks."""
     for text, tail in doc["pre"] + doc["post"]:
-        if tail is not None or any(ch in text for ch in ">\n\r\t") or any(ord(ch) < 32 for ch in text):
+        if tail is not None or any(ch in text for ch in ">\n\r"):
             return False
     if doc["root"][4] is not None:
         return False
@@ -384,7 +384,8 @@ class Cases:
                          "is_root": parent is None, "doc": doc})
         self.meta.append(("serialize:" + label.split(":")[0], {"label": label, "ll": ll, "doc": doc, "pns": pns, "siblings": sib}, iv))
         shaped_py = parent is None and capella_shaped(doc)
-        if parent is None and sib:
+        self.n_emit = getattr(self, "n_emit", 0) + 1
+        if parent is None and sib and (not label.startswith("sweep") or self.n_emit % 6 == 0):
             # the statements of the round-trip theorems, evaluated by the model on this very tree; and the
             # Lean predicate wfDoc against the harness' own reading of "Capella-shaped"
             self.req.append({"op": "xml.roundtrip", "ll": ll, "doc": doc})
